@@ -230,7 +230,7 @@ def att_type_and_values(att):
 # ------------------------------------------------------------------ ncoffsets
 def parse_ncoffsets(text):
     """-> dict(format, ndims, nvars, ngatts, header_size, header_extent, dims=[(name,len|None,current)],
-               fixed=[var], record=[var])   var = dict(typename,name,dims,start,end,size?,gap?)"""
+               fixed=[var], record=[var])   var = dict(typename,name,dims,start,end,recs=[[start,end,recno|None]...],size?,gap?)"""
     res = dict(format=None, dims=[], fixed=[], record=[], header_size=None, header_extent=None)
     m = re.search(r'//\s*File format:\s*CDF-(\d)', text)
     if m:
@@ -265,8 +265,13 @@ def parse_ncoffsets(text):
             if om and cur is not None:
                 k = {'start file offset': 'start', 'end   file offset': 'end', 'size in bytes': 'size',
                      'gap from prev var': 'gap'}[om.group(1)]
-                if k not in cur:          # with -r further records follow; keep the first (0th record)
+                if k not in cur:          # 'start'/'end' keep the first (0th record) ...
                     cur[k] = int(om.group(2))
+                if k == 'start':          # ... 'recs' lists every printed (start, end) pair with its record label
+                    rm = re.search(r'\((\d+)(?:st|nd|rd|th) record\)', s)
+                    cur.setdefault('recs', []).append([int(om.group(2)), None, int(rm.group(1)) if rm else None])
+                elif k == 'end' and cur.get('recs') and cur['recs'][-1][1] is None:
+                    cur['recs'][-1][1] = int(om.group(2))
     return res
 
 
